@@ -532,7 +532,7 @@ def narrow_struct(nf, fields):
 
 def parse_unit(path):
     lines = open(path).read().split('\n')
-    unit = {'id': None, 'props': [], 'expect': None, 'twins': [], 'trusted': {}, 'segments': [], 'path': path}
+    unit = {'id': None, 'props': [], 'expect': None, 'twins': [], 'trusted': {}, 'segments': [], 'path': path, 'oracles': {}}
     i = 0
     cur_text = []
 
@@ -555,6 +555,10 @@ def parse_unit(path):
         elif s.startswith('//@twin'):
             parts = [x.strip() for x in s[len('//@twin'):].split('|')]
             unit['twins'].append({'name': parts[0], 'old': parts[1], 'new': parts[2]})
+            i += 1
+        elif s.startswith('//@oracle'):
+            fns, orc = s[len('//@oracle'):].split('=>')
+            unit['oracles'][fns.strip().replace(' ', '')] = orc.strip()
             i += 1
         elif s.startswith('//@trusted'):
             for t in s.split()[1:]:
